@@ -191,4 +191,436 @@ theorem ordering_spec (r o : Range) (hr : r.start < r.stop) (ho : o.start < o.st
 example : (Range.mk 2 5).intersect (Range.mk 4 9) = some (Range.mk 4 5) := by decide
 example : (Range.mk 2 5).ordering (Range.mk 5 9) = -1 := by decide
 
+/-! ## The remaining public helpers of the five files (coverage round): see design/C15.md -/
+
+/-! ### Moving one end of a range, the `+`/`-` operators, bounds -/
+
+/-- `add_start` removes the offsets below `start + k`; it panics exactly when the `u32` addition
+    overflows or the new start passes the end. -/
+theorem addStart_spec (r : Range) (k : Nat) :
+    (∀ s, r.addStart k = some s → s.stop = r.stop ∧
+      ∀ x, mem s.start s.stop x ↔ (mem r.start r.stop x ∧ r.start + k ≤ x)) ∧
+    (r.addStart k = none ↔ (u32Max < r.start + k ∨ r.stop < r.start + k)) := by
+  simp only [Range.addStart, Size.add, Range.new?, mem]
+  constructor
+  · intro s h
+    split at h
+    · next a ha =>
+      split at ha
+      · cases ha
+        split at h
+        · cases h; simp only [true_and]; intro x; omega
+        · cases h
+      · cases ha
+    · cases h
+  · by_cases h1 : r.start + k ≤ u32Max
+    · by_cases h2 : r.start + k ≤ r.stop
+      · simp [h1, h2] <;> omega
+      · simp [h1, h2] <;> omega
+    · simp [h1] <;> omega
+
+/-- `sub_start` adds the `k` offsets below the start; it panics exactly when `start - k` is negative
+    (or, for an ill-formed range, still above the end). -/
+theorem subStart_spec (r : Range) (k : Nat) :
+    (∀ s, r.subStart k = some s → s.stop = r.stop ∧ s.start + k = r.start ∧
+      ∀ x, mem s.start s.stop x ↔ (r.start ≤ x + k ∧ x < r.stop)) ∧
+    (r.subStart k = none ↔ (r.start < k ∨ r.stop < r.start - k)) := by
+  simp only [Range.subStart, Size.sub, Range.new?, mem]
+  constructor
+  · intro s h
+    split at h
+    · next a ha =>
+      split at ha
+      · cases ha
+        split at h
+        · cases h; simp only [true_and]; refine ⟨by omega, ?_⟩; intro x; omega
+        · cases h
+      · cases ha
+    · cases h
+  · by_cases h1 : k ≤ r.start
+    · by_cases h2 : r.start - k ≤ r.stop
+      · simp [h1, h2] <;> omega
+      · simp [h1, h2] <;> omega
+    · simp [h1] <;> omega
+
+/-- `add_end` adds the `k` offsets from the old end on; it panics exactly on `u32` overflow. -/
+theorem addEnd_spec (r : Range) (k : Nat) :
+    (∀ s, r.addEnd k = some s → s.start = r.start ∧
+      ∀ x, mem s.start s.stop x ↔ (r.start ≤ x ∧ x < r.stop + k)) ∧
+    (r.addEnd k = none ↔ (u32Max < r.stop + k ∨ r.stop + k < r.start)) := by
+  simp only [Range.addEnd, Size.add, Range.new?, mem]
+  constructor
+  · intro s h
+    split at h
+    · next a ha =>
+      split at ha
+      · cases ha
+        split at h
+        · cases h; exact ⟨rfl, fun x => by simp only <;> omega⟩
+        · cases h
+      · cases ha
+    · cases h
+  · by_cases h1 : r.stop + k ≤ u32Max
+    · by_cases h2 : r.start ≤ r.stop + k
+      · simp [h1, h2] <;> omega
+      · simp [h1, h2] <;> omega
+    · simp [h1] <;> omega
+
+/-- `sub_end` removes the last `k` offsets; it panics exactly when `end - k` is negative or below
+    the start. -/
+theorem subEnd_spec (r : Range) (k : Nat) :
+    (∀ s, r.subEnd k = some s → s.start = r.start ∧
+      ∀ x, mem s.start s.stop x ↔ (r.start ≤ x ∧ x + k < r.stop)) ∧
+    (r.subEnd k = none ↔ (r.stop < k ∨ r.stop - k < r.start)) := by
+  simp only [Range.subEnd, Size.sub, Range.new?, mem]
+  constructor
+  · intro s h
+    split at h
+    · next a ha =>
+      split at ha
+      · cases ha
+        split at h
+        · cases h; exact ⟨rfl, fun x => by simp only <;> omega⟩
+        · cases h
+      · cases ha
+    · cases h
+  · by_cases h1 : k ≤ r.stop
+    · by_cases h2 : r.start ≤ r.stop - k
+      · simp [h1, h2] <;> omega
+      · simp [h1, h2] <;> omega
+    · simp [h1] <;> omega
+
+/-- `range + k` shifts the set up by `k`, panicking exactly when an end leaves `u32`;
+    `range - k` shifts it down, panicking exactly when an end would become negative. -/
+theorem shiftOps_spec (r : Range) (k : Nat) :
+    (∀ s, r.addOp k = some s → ∀ x, mem s.start s.stop (x + k) ↔ mem r.start r.stop x) ∧
+    (r.addOp k = none ↔ (u32Max < r.start + k ∨ u32Max < r.stop + k)) ∧
+    (∀ s, r.subOp k = some s → ∀ x, mem s.start s.stop x ↔ mem r.start r.stop (x + k)) ∧
+    (r.subOp k = none ↔ (r.start < k ∨ r.stop < k)) := by
+  refine ⟨fun s h x => checkedAdd_shift r s k h x, ?_, fun s h x => checkedSub_shift r s k h x, ?_⟩
+  · simp only [Range.addOp, Range.checkedAdd]
+    split <;> simp <;> omega
+  · simp only [Range.subOp, Range.checkedSub]
+    split <;> simp <;> omega
+
+/-- `RangeBounds` (`start_bound` included, `end_bound` excluded) describes the same set. -/
+theorem boundsContains_iff_mem (r : Range) (x : Nat) :
+    r.boundsContains x = true ↔ mem r.start r.stop x := by
+  simp [Range.boundsContains, boundsContain, Range.startBound, Range.endBound, mem]
+
+/-- `cover_offset`: the smallest range that contains the range and (inclusively) the offset. -/
+theorem coverOffset_hull (r : Range) (o : Nat) :
+    (r.coverOffset o).containsRange r = true ∧ (r.coverOffset o).containsInclusive o = true ∧
+    ∀ c : Range, c.containsRange r = true → c.containsInclusive o = true →
+      c.containsRange (r.coverOffset o) = true := by
+  simp [Range.coverOffset, Range.cover, Range.empty, Range.containsRange, Range.containsInclusive]
+  grind
+
+/-- constructors: `at(o, l)` spans `o ≤ x < o + l` (panics exactly on `u32` overflow),
+    `up_to(e)` spans `x < e`, `empty(o)` spans nothing. -/
+theorem constructors_spec (o l : Nat) :
+    (∀ s, Range.at? o l = some s → ∀ x, mem s.start s.stop x ↔ (o ≤ x ∧ x < o + l)) ∧
+    (Range.at? o l = none ↔ u32Max < o + l) ∧
+    (∀ x, mem (Range.upTo o).start (Range.upTo o).stop x ↔ x < o) ∧
+    (∀ x, ¬ mem (Range.empty o).start (Range.empty o).stop x) := by
+  simp only [Range.at?, Range.upTo, Range.empty, mem]
+  refine ⟨?_, ?_, ?_, ?_⟩
+  · intro s h; split at h
+    · cases h; intro x; simp only <;> omega
+    · cases h
+  · split <;> simp <;> omega
+  · intro x; omega
+  · intro x; omega
+
+example : (Range.mk 5 10).addStart 3 = some ⟨8, 10⟩ ∧ (Range.mk 5 10).addStart 6 = none := by decide
+example : (Range.mk 5 10).subStart 2 = some ⟨3, 10⟩ ∧ (Range.mk 5 10).subStart 6 = none := by decide
+example : (Range.mk 5 10).addEnd 2 = some ⟨5, 12⟩ ∧ (Range.mk 5 4294967295).addEnd 1 = none := by decide
+example : (Range.mk 5 10).subEnd 2 = some ⟨5, 8⟩ ∧ (Range.mk 5 10).subEnd 6 = none := by decide
+example : (Range.mk 4294967290 4294967295).addOp 1 = none ∧ (Range.mk 1 3).subOp 1 = some ⟨0, 2⟩ := by decide
+
+/-! ### Slicing -/
+
+/-- `&text[range]` (`Index<TextRange>` for `str`/`String`, `SourceCode::slice`, `SourceFile::slice`):
+    the result holds exactly the bytes at the offsets of the range's set, in order; it panics
+    exactly when the range is reversed, reaches past the text, or an end is inside a character. -/
+theorem index_spec (bs : List Nat) (r : Range) :
+    (∀ s, r.index bs = some s → s.length = r.stop - r.start ∧
+      ∀ x, mem r.start r.stop x → s[x - r.start]? = bs[x]?) ∧
+    (r.index bs = none ↔ ¬ (r.start ≤ r.stop ∧ r.stop ≤ bs.length ∧
+      isBoundary bs r.start = true ∧ isBoundary bs r.stop = true)) := by
+  constructor
+  · intro s h
+    obtain ⟨h1, h2, _, _, rfl⟩ := sliceChecked_some bs _ _ s h
+    refine ⟨by simp; omega, ?_⟩
+    intro x hx
+    exact slice_getElem bs r.start r.stop x hx
+  · simp only [Range.index, sliceChecked]
+    split <;> simp_all
+
+/-- `&mut text[range]` (`IndexMut<TextRange>`): a mutation through the returned slice touches exactly
+    the bytes at the offsets of the range's set; same panics as `Index`. -/
+theorem indexMut_spec (bs : List Nat) (r : Range) :
+    (∀ t, r.indexMutUpper bs = some t → t.length = bs.length ∧
+      ∀ x, t[x]? = if r.start ≤ x ∧ x < r.stop then (bs[x]?).map asciiUpper else bs[x]?) ∧
+    (r.indexMutUpper bs = none ↔ r.index bs = none) := by
+  constructor
+  · intro t h
+    simp only [Range.indexMutUpper] at h
+    split at h
+    · next s hs =>
+      cases h
+      obtain ⟨h1, h2, _, _, rfl⟩ := sliceChecked_some bs _ _ s hs
+      refine ⟨by simp; omega, ?_⟩
+      intro x
+      by_cases hx1 : x < r.start
+      · rw [if_neg (by omega)]
+        rw [List.append_assoc, List.getElem?_append_left (by simp; omega)]
+        simp [hx1]
+      · by_cases hx2 : x < r.stop
+        · rw [if_pos (by omega)]
+          rw [List.getElem?_append_left (by simp; omega)]
+          rw [List.getElem?_append_right (by simp; omega)]
+          simp only [List.length_take, List.getElem?_map]
+          have hm : min r.start bs.length = r.start := by omega
+          rw [hm, slice_getElem bs r.start r.stop x ⟨by omega, hx2⟩]
+        · rw [if_neg (by omega)]
+          rw [List.getElem?_append_right (by simp; omega)]
+          simp only [List.length_append, List.length_take, List.length_map, List.length_drop,
+            List.getElem?_drop]
+          congr 1; omega
+    · cases h
+  · simp only [Range.indexMutUpper, Range.index]
+    split <;> simp_all
+
+/-- `SourceCode::up_to` and `SourceCode::after` cut the text at the offset: the two pieces
+    concatenate to the text; both panic exactly when the offset is past the end or inside a character. -/
+theorem upTo_after_partition (bs : List Nat) (o : Nat) :
+    (o ≤ bs.length ∧ isBoundary bs o = true →
+      SourceCode.upTo bs o = some (bs.take o) ∧ SourceCode.after bs o = some (bs.drop o)) ∧
+    (¬ (o ≤ bs.length ∧ isBoundary bs o = true) →
+      SourceCode.upTo bs o = none ∧ SourceCode.after bs o = none) := by
+  have h0 : isBoundary bs 0 = true := by simp [isBoundary]
+  constructor
+  · intro h
+    refine ⟨?_, if_pos h⟩
+    show sliceChecked bs 0 o = _
+    unfold sliceChecked
+    rw [if_pos ⟨Nat.zero_le _, h.1, h0, h.2⟩]; simp
+  · intro h
+    refine ⟨?_, if_neg h⟩
+    show sliceChecked bs 0 o = _
+    unfold sliceChecked
+    rw [if_neg]; intro hc; exact h ⟨hc.2.1, hc.2.2.2⟩
+
+example : (Range.mk 1 3).index [97, 0xC3, 0xA9, 98] = some [0xC3, 0xA9] := by decide
+example : (Range.mk 1 2).index [97, 0xC3, 0xA9, 98] = none := by decide
+example : (Range.mk 1 3).indexMutUpper [97, 98, 99, 100] = some [97, 66, 67, 100] := by decide
+example : SourceCode.upTo [97, 0xC3, 0xA9] 2 = none ∧ SourceCode.after [97, 0xC3, 0xA9] 1 = some [0xC3, 0xA9] := by
+  decide
+
+/-! ### TextSize sums, line endings, line queries -/
+
+/-- `impl Sum for TextSize`: the sum of the sizes, panicking exactly when it leaves `u32`. -/
+theorem sum_spec (xs : List Nat) :
+    Size.sum xs = if xs.sum ≤ u32Max then some xs.sum else none := by
+  have := sumGo_spec 0 xs (by simp [u32Max])
+  simpa [Size.sum] using this
+
+example : Size.sum [1, 2, 4294967292] = some 4294967295 := by decide
+
+example : Size.sum [1, 2, 4294967293] = none := by decide
+
+/-- `find_newline`: position and kind of the first line break: the bytes before it contain no
+    break, the terminator text follows, and a CR is reported as `CrLf` exactly when a LF follows. -/
+theorem lineEnding_spec (t : List Nat) :
+    (∀ p e, findNewlineE t = some (p, e) →
+      (∀ x ∈ t.take p, isNl x = false) ∧ (t.drop p).take e.len = e.asStr ∧
+      (e = .cr → (t.drop (p + 1)).head? ≠ some 10) ∧
+      e.textLen = e.asStr.length ∧ e.len = e.asStr.length) ∧
+    (findNewlineE t = none ↔ ∀ x ∈ t, isNl x = false) := by
+  induction t with
+  | nil => simp [findNewlineE]
+  | cons b rest ih =>
+    obtain ⟨ih1, ih2⟩ := ih
+    by_cases hb10 : b = 10
+    · subst hb10
+      simp [findNewlineE, isNl, LineEnding.asStr, LineEnding.len, LineEnding.textLen]
+    · by_cases hb13 : b = 13
+      · subst hb13
+        by_cases hh : rest.head? = some 10
+        · cases rest with
+          | nil => simp at hh
+          | cons c r =>
+            have : c = 10 := by simpa using hh
+            subst this
+            simp [findNewlineE, isNl, LineEnding.asStr, LineEnding.len, LineEnding.textLen]
+        · have hh' : ¬ rest[0]? = some 10 := by rwa [← List.head?_eq_getElem?]
+          simp [findNewlineE, hh, hh', isNl, LineEnding.asStr, LineEnding.len, LineEnding.textLen]
+      · have hbn : isNl b = false := by simp [isNl, hb10, hb13]
+        cases hr : findNewlineE rest with
+        | none =>
+          simp only [findNewlineE, hb10, hb13, hr, ↓reduceIte]
+          constructor
+          · intro p e h; cases h
+          simp only [true_iff]
+          intro x hx
+          simp only [List.mem_cons] at hx
+          rcases hx with rfl | hx
+          · exact hbn
+          · exact ih2.mp hr x hx
+        | some pe =>
+          obtain ⟨p', e'⟩ := pe
+          simp only [findNewlineE, hb10, hb13, hr, ↓reduceIte]
+          obtain ⟨g1, g2, g3, g4⟩ := ih1 p' e' hr
+          constructor
+          · intro p e h
+            simp only [Option.some.injEq, Prod.mk.injEq] at h
+            obtain ⟨rfl, rfl⟩ := h
+            refine ⟨?_, by simpa using g2, by simpa [Nat.add_assoc] using g3, g4⟩
+            intro x hx
+            simp only [List.take_succ_cons, List.mem_cons] at hx
+            rcases hx with rfl | hx
+            · exact hbn
+            · exact g1 x hx
+          · simp only [reduceCtorEq, false_iff]
+            intro hall
+            have := ih2.mpr (fun x hx => hall x (by simp [hx]))
+            rw [hr] at this; cases this
+
+example : findNewlineE [97, 13, 10, 98] = some (1, .crlf) := by decide
+
+example : findNewlineE [97, 13, 98, 10] = some (1, .cr) := by decide
+
+/-- the queries of one line (terminator `term`, `body` without line breaks) starting at `o`:
+    `end` stops before the terminator, `full_end` after it, `range`/`full_range` are the
+    corresponding sets; nothing panics while the line fits into `u32`. -/
+theorem line_queries_spec (body term : List Nat) (o : Nat) (hb : ∀ x ∈ body, isNl x = false)
+    (ht : term = [] ∨ term = [10] ∨ term = [13] ∨ term = [13, 10])
+    (hfit : o + body.length + term.length ≤ u32Max) :
+    let l : Line := ⟨body ++ term, o⟩
+    l.start = o ∧ l.end' = some (o + body.length) ∧
+    l.fullEnd = some (o + body.length + term.length) ∧
+    l.fullTextLen = body.length + term.length ∧
+    l.range = some ⟨o, o + body.length⟩ ∧
+    l.fullRange = some ⟨o, o + body.length + term.length⟩ ∧
+    l.eqStr body = true := by
+  intro l
+  have has : l.asStr = body := asStr_spec' body term o hb ht
+  simp only [Line.start, Line.end', Line.fullEnd, Line.fullTextLen, Line.range, Line.fullRange,
+    Line.eqStr, has, Size.ofStr, Size.add, Range.at?, Range.new?, l, List.length_append]
+  have h1 : o + body.length ≤ u32Max := by omega
+  have h2 : o + (body.length + term.length) ≤ u32Max := by omega
+  simp [h1, h2, Nat.add_assoc]
+
+/-- a line query panics exactly when the `u32` addition overflows -/
+theorem line_queries_overflow (l : Line) :
+    (l.fullEnd = none ↔ u32Max < l.offset + l.text.length) ∧
+    (l.fullRange = none ↔ u32Max < l.offset + l.text.length) ∧
+    (l.end' = none ↔ u32Max < l.offset + l.asStr.length) ∧
+    (l.range = none ↔ u32Max < l.offset + l.asStr.length) := by
+  simp only [Line.fullEnd, Line.fullRange, Line.end', Line.range, Line.fullTextLen, Line.start,
+    Size.ofStr, Size.add, Range.at?, Range.new?]
+  refine ⟨?_, ?_, ?_, ?_⟩
+  · by_cases h : l.offset + l.text.length ≤ u32Max <;> simp [h] <;> omega
+  · by_cases h : l.offset + l.text.length ≤ u32Max <;> simp [h] <;> omega
+  · by_cases h : l.offset + l.asStr.length ≤ u32Max <;> simp [h] <;> omega
+  · by_cases h : l.offset + l.asStr.length ≤ u32Max <;> simp [h] <;> omega
+
+/-- "the lines carry correct offsets": consumed from the front, the iterator yields exactly the
+    reference lines, each at the running sum of the lengths of the lines before it … -/
+theorem line_offsets_spec (t : List Nat) (o : Nat) :
+    ((Iter.withOffset t o).collect).map Line.toPair
+      = List.zip (splitLines t) (startsFrom o (splitLines t)) := by
+  apply collectGo_run _ _ _ _ ⟨rfl, fun _ => ⟨rfl, rfl⟩⟩
+  have := splitLines_length_le t
+  simp [Iter.withOffset]; omega
+
+/-- … and each of those lines is `body ++ terminator` (so `line_queries_spec` applies to it). -/
+theorem line_form (t : List Nat) : ∀ l ∈ splitLines t,
+    ∃ body term, l = body ++ term ∧ (∀ x ∈ body, isNl x = false) ∧
+      (term = [] ∨ term = [10] ∨ term = [13] ∨ term = [13, 10]) ∧ l ≠ [] := splitLines_form t
+
+example : ((Iter.withOffset [97, 13, 10, 98] 7).collect).map
+    (fun l => (l.offset, l.end', l.fullEnd)) = [(7, some 8, some 10), (10, some 11, some 11)] := by decide
+
+/-- `Iterator::last` (overridden as `next_back`) is the last reference line at its true offset -/
+theorem last_spec (t : List Nat) (o : Nat) (hne : t ≠ []) :
+    ∃ init l, splitLines t = init ++ [l] ∧
+      (Iter.withOffset t o).last = some ⟨l, o + init.flatten.length⟩ := by
+  obtain ⟨init, l, h1, _, h3, _⟩ := nextBack_spec_aux (Iter.withOffset t o) hne
+  refine ⟨init, l, h1, ?_⟩
+  have hflat : t = (init ++ [l]).flatten := by
+    have := splitLines_flatten_aux t
+    rw [show (Iter.withOffset t o).text = t from rfl] at h1
+    rw [h1] at this; exact this.symm
+  have hlen : t.length = init.flatten.length + l.length := by
+    conv => lhs; rw [hflat]
+    simp
+  rw [Iter.last, h3]
+  simp only [Iter.withOffset]
+  congr 2; omega
+
+example : (Iter.withOffset [97, 10, 98, 13] 5).last = some ⟨[98, 13], 7⟩ := by decide
+
+/-! ### OneIndexed -/
+
+/-- conversions between zero- and one-based numbers: `from_zero_indexed` adds one (saturating at
+    `u32::MAX`), `to_zero_indexed` takes it away again, `new` rejects exactly zero, and every result
+    is a valid one-based number. -/
+theorem oneIndexed_conversions (v : Nat) (hv : v ≤ u32Max) :
+    (v < u32Max → OneIndexed.toZeroIndexed (OneIndexed.fromZeroIndexed v) = v) ∧
+    OneIndexed.fromZeroIndexed v = min (v + 1) u32Max ∧
+    (1 ≤ OneIndexed.fromZeroIndexed v ∧ OneIndexed.fromZeroIndexed v ≤ u32Max) ∧
+    OneIndexed.tryFromZeroIndexed v = some (OneIndexed.fromZeroIndexed v) ∧
+    (OneIndexed.new? v = none ↔ v = 0) ∧ (∀ x, OneIndexed.new? v = some x → x = v) ∧
+    (1 ≤ v → OneIndexed.fromZeroIndexed (OneIndexed.toZeroIndexed v) = v) := by
+  simp only [OneIndexed.toZeroIndexed, OneIndexed.fromZeroIndexed, OneIndexed.tryFromZeroIndexed,
+    OneIndexed.new?, u32Max] at *
+  refine ⟨by omega, by omega, by omega, by simp [hv], ?_, ?_, by omega⟩
+  · split <;> simp_all
+  · intro x h; split at h <;> simp_all
+
+/-- `try_from_zero_indexed` rejects exactly the values that do not fit `u32` -/
+theorem oneIndexed_tryFrom_none (v : Nat) :
+    OneIndexed.tryFromZeroIndexed v = none ↔ u32Max < v := by
+  simp only [OneIndexed.tryFromZeroIndexed]; split <;> simp <;> omega
+
+/-- saturating arithmetic on one-based numbers stays inside `1 ..= u32::MAX` -/
+theorem oneIndexed_saturating (x rhs : Nat) (hx : 1 ≤ x ∧ x ≤ u32Max) :
+    OneIndexed.saturatingAdd x rhs = min (x + rhs) u32Max ∧
+    OneIndexed.saturatingSub x rhs = max 1 (x - rhs) := by
+  simp only [OneIndexed.saturatingAdd, OneIndexed.saturatingSub, u32Max] at *
+  constructor
+  · by_cases h : min (x + rhs) 4294967295 = 0 <;> simp [h] <;> omega
+  · by_cases h : x - rhs = 0 <;> simp [h] <;> omega
+
+example : OneIndexed.saturatingSub 3 5 = 1 := by decide
+
+example : OneIndexed.saturatingAdd 4294967290 9 = 4294967295 := by decide
+
+example : OneIndexed.toZeroIndexed (OneIndexed.fromZeroIndexed 41) = 41 := by decide
+
+/-- the trailing-empty-line variant (`NewlineWithTrailingNewline::{from, with_offset}`): the
+    reference lines at their offsets, plus one empty line at the end of the text exactly when the
+    text ends with a line break. -/
+theorem trailingLines_spec (t : List Nat) (o : Nat) :
+    (trailingLines t o).map Line.toPair =
+      List.zip (splitLines t) (startsFrom o (splitLines t)) ++
+        (match t.getLast? with
+         | some b => if isNl b = true then [([], o + t.length)] else []
+         | none => []) := by
+  have h := line_offsets_spec t o
+  simp only [Iter.collect, Iter.withOffset] at h
+  simp only [trailingLines, trailingGo_eq, Iter.withOffset]
+  cases hl : t.getLast? with
+  | none => simp [h]
+  | some b =>
+    by_cases hb : b = 10 ∨ b = 13
+    · have : isNl b = true := by simpa [isNl] using hb
+      simp [hb, this, h, Line.toPair]
+    · have : isNl b = false := by simpa [isNl] using hb
+      simp [hb, this, h]
+
+example : (trailingLinesFrom [97, 10]).map Line.toPair = [([97, 10], 0), ([], 2)] := by decide
+
 end PV.C15
